@@ -57,6 +57,7 @@ namespace vf
       int node;
       int begin;
       int end;
+      int fam = 0;
    };
 
    enum hook_kind : int
@@ -159,6 +160,7 @@ namespace vf
       bool vetoed = false;
       bool own_hook_threw = false;
       bool lookahead = false;  // at / not_at (by rule_t)
+      int mode_rule = 0;       // 1 at / not_at, 2 disable, 3 enable (by rule_t): the only rules that change the apply mode
       bool may_raise = false;  // must / raise / raise_nested rules and slots
    };
 
@@ -538,17 +540,24 @@ namespace vf
    }
 
    // classification helpers (only to classify frames; the verdicts come from the model)
+   // value: 0 no apply-mode switch, 1 look-ahead (at / not_at: sub-rule runs with apply_mode::nothing), 2 disable, 3 enable
    template< typename T >
-   struct is_lookahead_rule : std::false_type
+   struct is_lookahead_rule : std::integral_constant< int, 0 >
    {};
    template< typename R >
-   struct is_lookahead_rule< pegtl::internal::at< R > > : std::true_type
+   struct is_lookahead_rule< pegtl::internal::at< R > > : std::integral_constant< int, 1 >
    {};
    template< typename R >
-   struct is_lookahead_rule< pegtl::internal::not_at< R > > : std::true_type
+   struct is_lookahead_rule< pegtl::internal::not_at< R > > : std::integral_constant< int, 1 >
+   {};
+   template< typename R >
+   struct is_lookahead_rule< pegtl::internal::disable< R > > : std::integral_constant< int, 2 >
+   {};
+   template< typename R >
+   struct is_lookahead_rule< pegtl::internal::enable< R > > : std::integral_constant< int, 3 >
    {};
    template< typename Rule, typename = void >
-   struct rule_is_lookahead : std::false_type
+   struct rule_is_lookahead : std::integral_constant< int, 0 >
    {};
    template< typename Rule >
    struct rule_is_lookahead< Rule, std::void_t< typename Rule::rule_t > > : is_lookahead_rule< typename Rule::rule_t >
@@ -847,7 +856,7 @@ namespace vf
          }
       }
 
-      static void note_apply( int kind, int tag, const std::type_info& ti, const std::string& rn, const char* bp, const char* cur, const pos3& p )
+      static void note_apply( int kind, int tag, const std::type_info& ti, const std::string& rn, const char* bp, const char* cur, const pos3& p, int fam = 0 )
       {
          monitor& m = mon();
          if( m.aborted ) {
@@ -870,18 +879,28 @@ namespace vf
          if( !f->act ) {
             m.flag( "C04", "action-while-disabled", "action of " + rn + " invoked in a frame whose apply mode is nothing" );
          }
-         for( const frame& o : m.stack ) {
-            if( o.lookahead && &o != f ) {
-               m.flag( "C04", "action-in-lookahead", "action of " + rn + " invoked inside a look-ahead rule" );
+         // look-ahead: walking outwards from the rule whose action fires, a look-ahead frame may only be met after a frame that
+         // was itself matched with actions disabled (i.e. an enable<> in between re-enabled them, which is documented behaviour)
+         for( std::size_t i = m.stack.size(); i-- > 0; ) {
+            const frame& o = m.stack[ i ];
+            if( &o == f ) {
+               continue;
+            }
+            if( o.lookahead ) {
+               m.flag( "C04", "action-in-lookahead", "action of " + rn + " invoked inside a look-ahead rule without an enable<> in between" );
+               break;
+            }
+            if( !o.act ) {
                break;
             }
          }
          if( f->node >= 0 ) {
-            m.events.push_back( { f->node, b, e } );
-            m.all_events.push_back( { f->node, b, e } );
+            const int efam = m.check_scopes ? 0 : fam;  // C13 checks families itself (attached switches are not part of the formalism)
+            m.events.push_back( { f->node, b, e, efam } );
+            m.all_events.push_back( { f->node, b, e, efam } );
             if( m.check_model && m.model ) {
                // the rule must really have matched exactly [b,e) at b, with actions enabled there
-               const pm::outcome pre = m.model->pre_verdict( f->node, b, m.off( f->before.end ), true );
+               const pm::outcome pre = m.model->pre_verdict( f->node, b, m.off( f->before.end ), true, efam );
                if( pre.k != pm::FUEL && !( pre.k == pm::OK && pre.end == e ) ) {
                   m.flag( "C04", "action-for-non-match", "action of " + rn + " invoked for [" + std::to_string( b ) + "," + std::to_string( e ) + ") but the formalism does not match that span there" );
                }
@@ -970,7 +989,7 @@ namespace vf
          return F.actual;
       }
 
-      static std::size_t enter( const std::type_info& ti, bool act, bool required, bool enabled, const snap& before, bool lookahead, bool may_raise, int fam = -1, int ctl = 0, long state_serial = 0 )
+      static std::size_t enter( const std::type_info& ti, bool act, bool required, bool enabled, const snap& before, int mode_rule, bool may_raise, int fam = -1, int ctl = 0, long state_serial = 0 )
       {
          monitor& m = mon();
          if( m.aborted ) {
@@ -997,10 +1016,23 @@ namespace vf
          f.before = before;
          f.hi = before.ptr;
          f.ev_mark = m.events.size();
+         const bool lookahead = ( mode_rule == 1 );
          f.lookahead = lookahead;
+         f.mode_rule = mode_rule;
          f.may_raise = may_raise;
          if( lookahead ) {
             ++m.lookahead_frames;
+         }
+         if( !m.stack.empty() ) {
+            // C04: the apply mode is inherited, except below at / not_at / disable (nothing) and enable (action);
+            // a re-entry of the same rule type is an attached change_* / enable_action / disable_action switch (C13 checks those)
+            const frame& P = m.stack.back();
+            if( P.ti != f.ti ) {
+               const bool want = ( P.mode_rule == 1 || P.mode_rule == 2 ) ? false : ( P.mode_rule == 3 ) ? true : P.act;
+               if( act != want ) {
+                  m.flag( "C04", std::string( "apply-mode:" ) + ( act ? "enabled" : "disabled" ) + "-below-" + ( P.mode_rule == 1 ? "lookahead" : P.mode_rule == 2 ? "disable" : P.mode_rule == 3 ? "enable" : "plain" ), "rule " + demangled( std::type_index( ti ) ) + " is matched with actions " + ( act ? "enabled" : "disabled" ) + " although its parent " + demangled( P.ti ) + " was matched with actions " + ( P.act ? "enabled" : "disabled" ) );
+               }
+            }
          }
          f.actual.fam = fam;
          f.actual.ctl = ctl;
@@ -1173,7 +1205,7 @@ namespace vf
          // ---- truthfulness against the model ---------------------------------------------
          if( m.check_model && m.model && f.node >= 0 ) {
             const int b = m.off( f.before.ptr );
-            const pm::outcome want = m.model->verdict( f.node, b, m.off( f.before.end ), f.act );
+            const pm::outcome want = m.model->verdict( f.node, b, m.off( f.before.end ), f.act, m.check_scopes ? 0 : f.actual.fam );
             if( want.k == pm::FUEL ) {
                return;
             }
@@ -1288,7 +1320,7 @@ namespace vf
          else {
             bp = begin.data;
          }
-         obs::note_apply( H_APPLY, tag_of< Rule >(), typeid( Rule ), rule_name< Rule >(), bp, in.current(), pos_of( in ) );
+         obs::note_apply( H_APPLY, tag_of< Rule >(), typeid( Rule ), rule_name< Rule >(), bp, in.current(), pos_of( in ), fam_id_of< Action< void > >::value );
          if( mon().check_positions ) {
             const typename ParseInput::action_t ai( begin, in );
             const auto ap = ai.position();
@@ -1312,7 +1344,7 @@ namespace vf
       {
          monitor& m = mon();
          const char* bp = m.stack.empty() ? in.current() : m.stack.back().before.ptr;
-         obs::note_apply( H_APPLY0, tag_of< Rule >(), typeid( Rule ), rule_name< Rule >(), bp, in.current(), pos_of( in ) );
+         obs::note_apply( H_APPLY0, tag_of< Rule >(), typeid( Rule ), rule_name< Rule >(), bp, in.current(), pos_of( in ), fam_id_of< Action< void > >::value );
          if constexpr( std::is_same_v< decltype( pegtl::normal< Rule >::template apply0< Action >( in, st... ) ), bool > ) {
             const bool r = pegtl::normal< Rule >::template apply0< Action >( in, st... );
             if( !r ) {
